@@ -308,7 +308,8 @@ class PoolWorld(object):
     wait = tuple(next((r['rid'] for r in self.reqs if r['stack'] is w[0]), -1) in [q['rid'] for q in self.live_waiters()]
                  for w in pool._waiters)
     ready = tuple(getattr(cb.callback, '__qualname__', type(cb.callback).__name__) for cb in self.lp._ready if cb.callback is not None)
-    return repr((pool.state, pool._current_size, len(pool._cache), wait, chans, reqs, done, ready, self.preempts, len(self.reqs)))
+    died = sum(1 for c in self.reg.channels if getattr(c, 'died', False))      # budget of the Die operation: part of the state
+    return repr((pool.state, pool._current_size, len(pool._cache), wait, chans, reqs, done, ready, self.preempts, len(self.reqs), died))
 
 
 def build(params, hist):
